@@ -369,9 +369,25 @@ structure JsonTable where
   data : List (List (String × Cell))
   deriving DecidableEq, Repr
 
-/-- `ReportTable.to_json`: keys = lower-cased header texts; cells beyond the header are dropped -/
+/-- length of the longest string of a list -/
+def maxLen (l : List String) : Nat := l.foldl (fun m s => max m s.length) 0
+
+/-- `while key in column_names: key += "_"` (the fuel `maxLen seen + 1` is never exhausted: a key longer than every
+    name seen so far is fresh) -/
+def freshKey (seen : List String) : Nat → String → String
+  | 0, k => k
+  | f + 1, k => if seen.contains k then freshKey seen f (k ++ "_") else k
+
+/-- the JSON keys of `to_json` (after the repair of F20): the lower-cased title, a repeated title qualified with its
+    column position (`id`, `start`, `end`, `id_4`), and underscores appended while that still collides -/
+def uniqNames (names : List String) : List String :=
+  names.zipIdx.foldl (fun acc ni =>
+    let k0 := if acc.contains ni.1 then ni.1 ++ "_" ++ toString (ni.2 + 1) else ni.1
+    acc ++ [freshKey acc (maxLen acc + 1) k0]) []
+
+/-- `ReportTable.to_json`: keys = `uniqNames` of the lower-cased header texts; cells beyond the header are dropped -/
 def toJson (tb : Table) : JsonTable :=
-  let names := tb.header.map String.toLower
+  let names := uniqNames (tb.header.map String.toLower)
   { columns := names
     data := tb.body.map (fun line => (names.zip line).foldl (fun d kv => dictSet d kv.1 kv.2) []) }
 
